@@ -14,6 +14,7 @@ from concurrent.futures import ThreadPoolExecutor
 HERE = os.path.dirname(os.path.abspath(__file__))
 VERIF = os.environ.get("VERIF_DIR", os.path.dirname(HERE))
 BIN = os.path.join(VERIF, "harness", "target-loom", "release", "loommc")
+PACK = f"/dev/shm/jbkmc-loompack-{os.getpid()}.jbkc"
 
 
 def run(cfg, timeout):
@@ -32,7 +33,7 @@ def run(cfg, timeout):
 
 
 RULES = {
-    "c07": "stateless exploration with loom of the real compression.rs (create_sync_vec, decode_to_end, SyncVecRd, impl Source for SeekableDecoder) and FileSource::read: one decoder thread fed by a scripted Read (chunks of 2 bytes, short-read scripts {2},{1},{1,2}) and R readers each doing one operation from {get_slice(o,n) for every sub-range incl. one past the end, read(o, long/1), read_exact, stream to the end}; every operation tuple is a configuration; all interleavings at loom's scheduling points (mutex, condvar, thread) with preemption bound 0,1,2 (3 and unbounded where listed); one loom cell per buffer byte makes the unsynchronised buffer accesses visible to the race detector; evaluations = executions (complete schedules), distinct_nontrivial = configurations (operation tuple x short-read script)",
+    "c07": "stateless exploration with loom of the real compression.rs (create_sync_vec, decode_to_end, SyncVecRd, impl Source for SeekableDecoder) and FileSource::read, and (engine B) of the real ContentPack reader: cluster cache Mutex<LruCache> of capacity 1 or 2 (eviction at every other access), the cluster RwLock raw->plain switch (two readers racing to start the decoder), background decoders with 4-byte chunks and the shared BufReader of the file, two readers doing 2+1 (or 2+2) content reads over {two blobs of one compressed cluster, a raw cluster, another compressed cluster}; engine A: one decoder thread fed by a scripted Read (chunks of 2 bytes, short-read scripts {2},{1},{1,2}) and R readers each doing one operation from {get_slice(o,n) for every sub-range incl. one past the end, read(o, long/1), read_exact, stream to the end}; every operation tuple is a configuration; all interleavings at loom's scheduling points (mutex, condvar, thread) with preemption bound 0,1,2 (3 and unbounded where listed); one loom cell per buffer byte makes the unsynchronised buffer accesses visible to the race detector; evaluations = executions (complete schedules), distinct_nontrivial = configurations (operation tuple x short-read script)",
     "c08": "stateless exploration with loom of the real clusterwriter.rs (ClusterWriterProxy, W ClusterCompressor threads, the ClusterWriter thread, dispatch/fusion channels, back-pressure condvar) driven through ContentPackCreator with an in-memory recipient, 1 blob per cluster (override), every insertion program over {c: hint Yes, r: hint No} of length 1..4 (W=1) / 1..3 (W=2) plus 5 and 6 compressed clusters beyond the back-pressure limit, preemption bound 0,1,2 (3 on the short programs); per execution: creation terminates (no deadlock), addresses as inserted, the produced pack is decoded by the independent decoder and every content resolves to its bytes; evaluations = executions, distinct_nontrivial = (program, W, bound) configurations",
 }
 
@@ -48,6 +49,16 @@ def c07_jobs(add, ncpu, thorough):
     add(["decoder", "--chunks", "3", "--readers", "2", "--ops", "ends"], [0, 1, 2], ncpu)
     add(["decoder-eof"], [0, 1, 2, 3])
     add(["file", "--file", "/dev/shm/x"], [0, 1, 2, 3])
+    # engine B: the real ContentPack reader (cluster cache of capacity 1 or 2, cluster RwLock,
+    # background decoders, shared FileSource) - reader A: 2 contents, reader B: 1 (or 2) contents
+    add(["container", "--pack", PACK, "--cache", "1"], [0, 1, 2], 4)
+    add(["container", "--pack", PACK, "--cache", "1", "--combos", "full"], [2], ncpu)
+    add(["container", "--pack", PACK, "--cache", "2"], [2], 4)
+    if thorough:
+        add(["container", "--pack", PACK, "--cache", "1"], [3], ncpu)
+        add(["container", "--pack", PACK, "--cache", "1", "--combos", "full"], [3], ncpu)
+        add(["container", "--pack", PACK, "--cache", "2", "--combos", "full"], [2, 3], ncpu)
+        add(["container", "--pack", PACK, "--cache", "1"], ["none"], ncpu)
     if thorough:
         add(["decoder", "--chunks", "2", "--readers", "2"], [3], ncpu)
         add(["decoder", "--chunks", "3", "--readers", "2"], [2], ncpu)
@@ -101,6 +112,12 @@ def main():
             for s in range(shards):
                 jobs.append(base + ["--bound", str(b)] + (["--shard", str(s), "--shards", str(shards)] if shards > 1 else []))
 
+    if sub == "c07":
+        g = subprocess.run([os.path.join(VERIF, "harness", "target", "release", "corpusmc"), "genpack", "--file", PACK], capture_output=True, text=True)
+        if g.returncode != 0 or not os.path.exists(PACK):
+            sys.stderr.write("MACHINERY-ERROR cannot generate the pack for the container engine: " + g.stderr[-200:] + "\n")
+            json.dump({"engine": "loomdrv.py", "property": "C07", "machinery_errors": ["genpack failed"], "evaluations": 0, "distinct_nontrivial": 0, "violations": []}, open(out, "w") if out else sys.stdout)
+            sys.exit(2)
     (c07_jobs if sub == "c07" else c08_jobs)(add, ncpu, thorough)
     # distinct file names for concurrent `file` runs
     for k, j in enumerate(jobs):
@@ -117,6 +134,7 @@ def main():
     by_cfg = {}
     for r in results:
         name = " ".join(x for x in r["cfg"] if not x.startswith("/dev/shm"))
+        
         if r.get("cap"):
             caps.append(f"{name}: not finished within {cap_s}s")
             continue
@@ -168,6 +186,10 @@ def main():
         "exhaustive": not caps, "caps": caps, "states": 0, "transitions": 0, "traces_validated_against_impl": executions,
         "machinery_errors": machinery, "wall_s": time.time() - t0,
     }
+    try:
+        os.unlink(PACK)
+    except OSError:
+        pass
     text = json.dumps(rep, indent=1)
     if out:
         open(out, "w").write(text)
